@@ -156,15 +156,54 @@ class EarlyHandler(RequestHandler):
     post = get
 
 
+@stream_request_body
+class SplitHandler(RequestHandler):
+    """Runs the first part of the program in prepare(), i.e. BEFORE the request body is read (output ops
+    there happen during HTTPMessageDelegate.headers_received), and the rest in the method, after it."""
+
+    SUPPORTED_METHODS = ("GET", "HEAD", "POST")
+
+    async def prepare(self):
+        await _interpret(self, self.settings["prog_pre"])
+
+    def data_received(self, chunk):
+        pass
+
+    async def get(self):
+        await _interpret(self, self.settings["prog"])
+
+    head = get
+    post = get
+
+
+TERMINAL_OPS = ("finish", "redirect", "raise_http", "raise_finish", "raise_value")
+
+
+def split_index(prog, k):
+    """Number of leading ops that may run in prepare(): at most k, and none at or after a terminal op."""
+    for i, op in enumerate(prog):
+        if op[0] in TERMINAL_OPS:
+            return min(k, i)
+    return min(k, len(prog))
+
+
 class SecondHandler(RequestHandler):
     def get(self):
         self.write(SECOND_BODY)
 
 
-def make_app(prog, early=False, **settings):
+def make_app(prog, early=False, pre=None, **settings):
+    """pre=k: stream_request_body handler running the first k ops (see split_index) in prepare()."""
+    resolved = resolve_prog(prog)
+    if pre is not None:
+        k = split_index(resolved, pre)
+        return Application(
+            [("/", SplitHandler), ("/second", SecondHandler)],
+            prog_pre=resolved[:k], prog=resolved[k:], **settings,
+        )
     return Application(
         [("/", EarlyHandler if early else ProgramHandler), ("/second", SecondHandler)],
-        prog=resolve_prog(prog),
+        prog=resolved,
         **settings,
     )
 
